@@ -111,7 +111,10 @@ pub fn max_request() -> usize {
 pub fn installed() -> bool {
     let base = reset_peak();
     let v: Vec<u8> = std::hint::black_box(Vec::with_capacity(12_345));
-    let seen = max_request() >= 12_345 && peak() >= base.wrapping_add(12_345);
+    // only the request size is looked at: the live/peak counters can move under our feet when
+    // another thread (rayon worker, watchdog) frees memory between the reset and this line
+    let _ = base;
+    let seen = max_request() >= 12_345;
     drop(std::hint::black_box(v));
     seen
 }
